@@ -140,6 +140,10 @@ func genC16(seed uint64, idx int, tier string) *Scenario {
 				pl = append(pl, byte('a'+r.Intn(26)))
 			}
 			add(c16Msg{Kind: "data", Payload: hex.EncodeToString(pl), Style: style()})
+			if k == nd-1 && r.Chance(0.2) {
+				// the service behind closes first (the stub returns when it reads the marker)
+				add(c16Msg{Kind: "data", Payload: hex.EncodeToString([]byte(stubCloseMarker)), Style: style()})
+			}
 			if r.Chance(0.05) {
 				add(c16Msg{Kind: "ping", Style: style()})
 			}
@@ -149,12 +153,26 @@ func genC16(seed uint64, idx int, tier string) *Scenario {
 		}
 		if r.Chance(0.8) {
 			add(c16Msg{Kind: "eof", Style: style()})
+			if r.Chance(0.25) {
+				// the same address pair is announced again after the first connection has ended (source-port reuse);
+				// sometimes the service had closed the first one before the agent's eof arrived
+				add(c16Msg{Kind: "hello", Style: style()})
+				for k := r.Range(1, 3); k > 0; k-- {
+					add(c16Msg{Kind: "data", Payload: hex.EncodeToString([]byte(fmt.Sprintf("[v%d again#%d]%s", v, k, r.word(0, 60)))), Style: style()})
+				}
+				if r.Chance(0.8) {
+					add(c16Msg{Kind: "eof", Style: style()})
+				}
+			}
 		}
 		sc.Actors = append(sc.Actors, a)
 	}
 	if r.Chance(0.3) {
+		sc.Params["yield_pct"] = []int{20, 40, 70}[r.Intn(3)]
+	}
+	if r.Chance(0.4) {
 		a := Actor{Kind: "vconn", Name: "udp", Src: "198.51.100.77:5000", Dst: "192.0.2.1:5353"}
-		for k := r.Range(1, 3); k > 0; k-- {
+		for k := r.Range(1, 6); k > 0; k-- {
 			ej, _ := json.Marshal(c16Msg{Kind: "udp", Payload: hex.EncodeToString([]byte(fmt.Sprintf("dgram-%d-%s", k, r.word(0, 50)))), Style: style()})
 			a.Ops = append(a.Ops, Op{K: "agentmsg", Exp: ej})
 		}
@@ -171,6 +189,15 @@ func genC16(seed uint64, idx int, tier string) *Scenario {
 	sc.Params["conns"] = cl
 	sc.Class = fmt.Sprintf("vconns=%d", nv)
 	sc.Schedule = r.Schedule(200)
+	if sc.ParamInt("yield_pct", 0) > 0 {
+		// several agent messages arrive before the listener runs again; replies of different virtual connections
+		// (and of the UDP relay) are then produced at the same time and give way to each other at their writes
+		for i := range sc.Schedule {
+			if r.Chance(0.6) {
+				sc.Schedule[i] |= 1<<16 | r.Intn(4)<<17
+			}
+		}
+	}
 	sc.DrainMs = 2000
 	return sc
 }
@@ -286,9 +313,21 @@ func runC16(t *testing.T, sc *Scenario) Result {
 	json.Unmarshal(b, &conns)
 	discAfter := sc.ParamInt("disconnect_after", 0)
 	ac := &agentClient{}
-	sentData := map[string][]byte{} // vconn name -> concatenation of data payloads sent after its hello
+	// per virtual connection (address pair): its incarnations in order - the pair may be announced again after an eof
+	type incarnation struct {
+		data   []byte // concatenation of the data payloads sent while it was open
+		eof    bool
+		closes bool // the data carries the marker that makes the service close first
+	}
+	incs := map[string][]*incarnation{}
+	cur := func(name string) *incarnation {
+		l := incs[name]
+		if len(l) == 0 || l[len(l)-1].eof {
+			return nil
+		}
+		return l[len(l)-1]
+	}
 	helloSent := map[string]bool{}
-	eofSent := map[string]bool{}
 	udpSent := [][]byte{}
 	msgs := 0
 	disconnected := false
@@ -342,16 +381,24 @@ func runC16(t *testing.T, sc *Scenario) Result {
 			case "hello":
 				ac.send(agent.TypeHello, agent.Hello{Laddr: tcpAddrOf(a.Dst), Raddr: tcpAddrOf(a.Src)}, m.Style)
 				helloSent[a.Name] = true
+				if cur(a.Name) == nil {
+					incs[a.Name] = append(incs[a.Name], &incarnation{})
+				}
 			case "data":
 				ac.send(agent.TypeReadWriteTCP, agent.ReadWriteTCP{Laddr: tcpAddrOf(a.Dst), Raddr: tcpAddrOf(a.Src), Payload: pl}, m.Style)
-				if helloSent[a.Name] && !eofSent[a.Name] {
-					sentData[a.Name] = append(sentData[a.Name], pl...)
+				if c := cur(a.Name); c != nil && !c.closes {
+					c.data = append(c.data, pl...)
+					if bytes.Contains(c.data, []byte(stubCloseMarker)) {
+						c.closes = true
+					}
 				}
 			case "unknown-data":
 				ac.send(agent.TypeReadWriteTCP, agent.ReadWriteTCP{Laddr: tcpAddrOf("192.0.2.1:8022"), Raddr: tcpAddrOf("198.51.100.250:9"), Payload: pl}, m.Style)
 			case "eof":
 				ac.send(agent.TypeEOF, agent.EOF{Laddr: tcpAddrOf(a.Dst), Raddr: tcpAddrOf(a.Src)}, m.Style)
-				eofSent[a.Name] = true
+				if c := cur(a.Name); c != nil {
+					c.eof = true
+				}
 			case "ping":
 				ac.send(agent.TypePing, agent.Ping{}, m.Style)
 			case "udp":
@@ -400,28 +447,43 @@ func runC16(t *testing.T, sc *Scenario) Result {
 				mine = append(mine, c)
 			}
 		}
-		if len(mine) != 1 {
-			res.Violate("virtual-connection-not-surfaced", "agent", fmt.Sprintf("connection %s -> %s announced by the agent was surfaced %d times to the services (all: %d)", raddr, laddr, len(mine), len(calls)))
+		want := incs[a.Name]
+		if len(mine) != len(want) {
+			res.Violate("virtual-connection-not-surfaced", "agent", fmt.Sprintf("connection %s -> %s was announced %d time(s) by the agent and surfaced %d time(s) to the services (all: %d)", raddr, laddr, len(want), len(mine), len(calls)))
 			return res
 		}
-		c := mine[0]
-		want := sentData[a.Name]
-		if !disconnected {
-			if !bytes.Equal(c.Data, want) {
-				at := 0
-				for at < len(c.Data) && at < len(want) && c.Data[at] == want[at] {
-					at++
+		var wrote []byte
+		for k, c := range mine {
+			in := want[k]
+			if !disconnected {
+				if !bytes.Equal(c.Data, in.data) {
+					at := commonPrefix(c.Data, in.data)
+					lo, hi := at-10, at+30
+					if lo < 0 {
+						lo = 0
+					}
+					res.Violate("relayed-bytes-differ", "agent", fmt.Sprintf("connection %s -> %s (announcement %d of %d): the service read %d bytes, the agent sent %d bytes; first difference at offset %d: read %q, sent %q", raddr, laddr, k+1, len(want), len(c.Data), len(in.data), at, string(c.Data[lo:min(hi, len(c.Data))]), string(in.data[lo:min(hi, len(in.data))])))
+					return res
 				}
-				lo, hi := at-10, at+30
-				if lo < 0 {
-					lo = 0
-				}
-				res.Violate("relayed-bytes-differ", "agent", fmt.Sprintf("connection %s -> %s: the service read %d bytes, the agent sent %d bytes; first difference at offset %d: read %q, sent %q", raddr, laddr, len(c.Data), len(want), at, string(c.Data[lo:min(hi, len(c.Data))]), string(want[lo:min(hi, len(want))])))
+			} else if !bytes.HasPrefix(in.data, c.Data) {
+				res.Violate("relayed-bytes-differ", "agent", fmt.Sprintf("connection %s -> %s: the service read bytes that are not a prefix of what the agent sent", raddr, laddr))
 				return res
 			}
-		} else if !bytes.HasPrefix(want, c.Data) {
-			res.Violate("relayed-bytes-differ", "agent", fmt.Sprintf("connection %s -> %s: the service read bytes that are not a prefix of what the agent sent", raddr, laddr))
-			return res
+			wrote = append(wrote, c.Data...)
+			if (in.eof || disconnected || in.closes) && !c.Done {
+				res.Violate("connection-not-ended", "agent", fmt.Sprintf("connection %s -> %s (announcement %d): eof=%v disconnect=%v but the service's handler is still reading", raddr, laddr, k+1, in.eof, disconnected))
+				return res
+			}
+			if !in.eof && !disconnected && !in.closes && c.Done {
+				res.Violate("connection-ended-early", "agent", fmt.Sprintf("connection %s -> %s ended (%q) although neither eof nor disconnect happened", raddr, laddr, c.ReadErr))
+				return res
+			}
+			if k > 0 {
+				res.probe("re-announced-connections", 1)
+			}
+			if c.ClosedFirst {
+				res.probe("service-closed-first", 1)
+			}
 		}
 		// the echo returns to the agent tagged with this connection's addresses, in order
 		var back []byte
@@ -430,20 +492,27 @@ func runC16(t *testing.T, sc *Scenario) Result {
 				back = append(back, r.Payload...)
 			}
 		}
-		if !disconnected && !bytes.Equal(back, c.Data) {
-			res.Violate("reply-bytes-differ", "agent", fmt.Sprintf("connection %s -> %s: the service wrote %d bytes, %d came back to the agent tagged with its addresses (%q... vs %q...)", raddr, laddr, len(c.Data), len(back), short(string(c.Data), 40), short(string(back), 40)))
+		if !disconnected && len(mine) > 1 && !bytes.Equal(back, wrote) {
+			// several connections shared this address pair one after the other.  When the pair is re-announced while
+			// replies of the previous connection are still on their way (same step), the two reply streams may mix on
+			// the wire - each must still arrive complete and in its own order, and nothing else under this pair.
+			ok := len(back) == len(wrote)
+			for _, c := range mine {
+				if !isSubsequence(c.Data, back) {
+					ok = false
+				}
+			}
+			if ok {
+				res.probe("overlapping-re-announcements", 1)
+				back = wrote
+			}
+		}
+		if !disconnected && !bytes.Equal(back, wrote) {
+			res.Violate("reply-bytes-differ", "agent", fmt.Sprintf("connection %s -> %s: the service wrote %d bytes, %d came back to the agent tagged with its addresses (%q... vs %q...)", raddr, laddr, len(wrote), len(back), short(string(wrote), 40), short(string(back), 40)))
 			return res
 		}
-		if disconnected && !bytes.HasPrefix(c.Data, back) {
+		if disconnected && !bytes.HasPrefix(wrote, back) {
 			res.Violate("reply-bytes-differ", "agent", fmt.Sprintf("connection %s -> %s: bytes tagged with its addresses are not a prefix of what the service wrote", raddr, laddr))
-			return res
-		}
-		if (eofSent[a.Name] || disconnected) && !c.Done {
-			res.Violate("connection-not-ended", "agent", fmt.Sprintf("connection %s -> %s: eof=%v disconnect=%v but the service's handler is still reading", raddr, laddr, eofSent[a.Name], disconnected))
-			return res
-		}
-		if !eofSent[a.Name] && !disconnected && c.Done {
-			res.Violate("connection-ended-early", "agent", fmt.Sprintf("connection %s -> %s ended (%q) although neither eof nor disconnect happened", raddr, laddr, c.ReadErr))
 			return res
 		}
 		res.probe("virtual-connections-verified", 1)
@@ -486,4 +555,15 @@ func runC16(t *testing.T, sc *Scenario) Result {
 	}
 	res.probe("messages", msgs)
 	return res
+}
+
+// isSubsequence: sub occurs in s in order (not necessarily contiguously).
+func isSubsequence(sub, s []byte) bool {
+	i := 0
+	for _, b := range s {
+		if i < len(sub) && sub[i] == b {
+			i++
+		}
+	}
+	return i == len(sub)
 }
